@@ -1190,7 +1190,9 @@ class Engine(object):
                 if split_expr_s is not None:
                     ctx.assume(ex.spec_bool(split_expr_s, penv))
                 for nm, expr in (contract.get("old") or {}).items():
-                    penv[nm] = self.snapshot(ex.spec_eval(expr, penv))
+                    v_old = ex.spec_eval(expr, penv)
+                    # pre-state names are copies, except those the contract uses for OBJECT identity / later state
+                    penv[nm] = v_old if nm in (contract.get("old_by_reference") or ()) else self.snapshot(v_old)
                 memo = {}
                 pre_env = dict((k, self.deep_snapshot(v, memo)) for k, v in penv.items())
                 ex.pre_env = pre_env
